@@ -306,6 +306,10 @@ func c07R2(c *Ctx, rule string) {
 			lo, hi, okS := constSliceOf(u.Call.Args[len(u.Call.Args)-1], plaintext)
 			okCT = okS && lo == 29 && hi == 37
 		}
+		// the same field decoded by shifts or by a fold loop
+		if bf := beFieldOf(beValueScan(f, plaintext), clientTime.Call.Args[0]); bf != nil && bf.Lo == 29 && bf.N == 8 {
+			okCT = true
+		}
 	}
 	c.Check(okCT, rule, "client time = time.Unix(BE64(plaintext[29:37]), 0)", c.atFn(f), "timestamp field at [29:37]", "the timestamp is not decoded from bytes 29..36 of the plaintext")
 	isClient := func(v ssa.Value) bool { return clientTime != nil && stripConv(v) == ssa.Value(clientTime) }
@@ -439,6 +443,22 @@ func c07R3(c *Ctx, rule string) {
 				}
 				if a.Kind == "cmp" && a.Op == token.EQL && strings.Contains(s, "len(") && strings.Contains(s, "u32") {
 					ln = true
+				}
+				// however the three length bytes are decoded: len(part of the message) == a value computed from the message
+				if a.Kind == "cmp" && a.Op == token.EQL && len(f.Params) > 0 {
+					for _, side := range []ssa.Value{a.X, a.Y} {
+						lc, isLen := stripConv(side).(*ssa.Call)
+						if !isLen || calleeName(&lc.Call) != "builtin.len" {
+							continue
+						}
+						other := otherSide(a, side)
+						if _, isK := intConst(other); isK {
+							continue
+						}
+						if valueDependsOn(lc.Call.Args[0], f.Params[0], 0) && valueDependsOn(other, f.Params[0], 0) {
+							ln = true
+						}
+					}
 				}
 			}
 			c.Check(magic && typ && ln, rule, "parseClientHello: record magic, handshake type and length tests precede success", c.at(r), "16 03 01 ∧ type 1 ∧ declared length == remaining", fmt.Sprintf("magic=%v type=%v length=%v", magic, typ, ln))
